@@ -32,21 +32,6 @@ Proof.
     eapply IH; eauto.
 Qed.
 
-Lemma compile_flag_inv e sc is sc' : compile_flag e sc = Ok (is, sc') ->
-  exists is0 res fr, compile_expr e (clear_tmps sc) = Ok (is0, res, sc') /\
-    sc_get (sc_named sc') flag_n = Some fr /\
-    ((exists b, res = ImmBool b /\ is = is0 ++ [mkInstr fr OBind fr res]) \/
-     (exists j t, res = Tmp j (TBool t) /\ set_last_res is0 fr = Some is)).
-Proof.
-  unfold compile_flag. intros H. apply bind_ok_inv in H. destruct H as ([[is0 res] sc1] & Hc & H).
-  change (lit "__eventFlag") with flag_n in H.
-  destruct (sc_get (sc_named sc1) flag_n) as [fr|] eqn:Ef; [|discriminate].
-  destruct res as [i t vol|x|b|i t|i t|i t|i t vol|i t|]; try discriminate.
-  - inversion H; subst. exists is0, (ImmBool b), fr. repeat split; eauto.
-  - destruct t; try discriminate. destruct (set_last_res is0 fr) eqn:Es; [|discriminate].
-    inversion H; subst. exists is0, (Tmp i (TBool o)), fr. repeat split; eauto.
-Qed.
-
 Section SimProg.
   Variable scf : list (name * reg).
   Variable cx : ctx.
